@@ -713,6 +713,10 @@ def rejection_cases(draw, tier):
         m = draw(st.integers(1, 6))
         n = draw(st.integers(1, 6).filter(lambda k: k != m))
         A, _ = draw(gen.qarray(m, n, draw(st.sampled_from(["generic", "int", "zero", "sparse"]))))
+        if draw(st.integers(0, 4)) == 0:
+            # every entry the same real constant: A and A^H broadcast against each other to an all-equal array
+            A = np.zeros((m, n, 4))
+            A[..., 0] = float(draw(st.integers(-3, 3)))
         if draw(st.booleans()):
             # Hermitian leading square block: only the shape is wrong
             k = min(m, n)
